@@ -87,6 +87,21 @@ def oracle_model(case):
                 Q2[:, masked] = rs.randn(len(Q), len(masked)) * scale
                 if not np.array_equal(est.predict_proba(Q2), P0):
                     raise Violation(f"{label}: changing the masked features {masked} changes predict_proba")
+            # masked columns are not read at all: with scikit-learn's input validation switched off (assume_finite=True, a
+            # documented configuration) even missing values in them change nothing
+            import sklearn
+            with sklearn.config_context(assume_finite=True):
+                for bad in (np.nan, np.inf):
+                    Q3 = Q.copy()
+                    Q3[::2, masked] = bad
+                    try:
+                        P3 = est.predict_proba(Q3)
+                    except Exception as e:
+                        raise Violation(f"{label}: predict_proba raised {type(e).__name__}: {e} for {bad} in the masked features {masked} "
+                                        f"under assume_finite=True")
+                    if not np.array_equal(P3, P0):
+                        raise Violation(f"{label}: {bad} in the masked features {masked} changes predict_proba (assume_finite=True): "
+                                        f"the masked columns are read")
         # soft memberships at the model's own temperature and at others
         for T in (case["temperature"], 1e-4, 10.0):
             est.temperature = T
@@ -200,6 +215,13 @@ def oracle_active(case):
         est.feature_mask[...] = ~est.feature_mask
     elif tamper == 3:
         est.set_params(n_clusters=est.n_clusters + 1, temperature=est.temperature * 2)
+    if tamper in (1, 2) and case["mask"] is not None:
+        # the fitted model keeps the features it was fitted on: a mask changed afterwards (no refit) plays no part in predictions
+        P_now = est.predict_proba(X)
+        if not np.array_equal(P_now, P_before) or not np.array_equal(est.predict(X), pred_before):
+            raise Violation(f"{label}: after {'set_params(feature_mask=other mask)' if tamper == 1 else 'rewriting the mask array in place'} "
+                            f"and without any refit, the model predicts the training data differently "
+                            f"(max change {float(np.max(np.abs(P_now - P_before))):.3g})")
     got = est.find_active_points(Q)
     if tamper == 0:
         got2 = est.find_active_points(Q)
